@@ -79,7 +79,8 @@ def conclusions(case, impl):
             # known finding K3: single-phase, in a step longer than the previous one, a bump that is largest at code
             # node 1 and dies out within a few nodes (the frac-face row restarts node 0 from m_f every step)
             js = np.nonzero(dt_[i] > TOL * scale)[0]
-            prefix = len(js) <= 5 and list(js) == list(range(len(js))) and np.all(np.diff(dt_[i, js]) <= 0)
+            # (on fine grids the bump spreads over more nodes: up to nx/20 of them)
+            prefix = len(js) <= max(5, nx // 20) and list(js) == list(range(len(js))) and np.all(np.diff(dt_[i, js]) <= 0)
             # ... and the bump keeps moving inward during the step that follows the increase
             grew = i >= 1 and (steps[i] > steps[i - 1] or (i >= 2 and steps[i - 1] > steps[i - 2]))
             k3 = case["kind"] == "single" and grew and prefix
@@ -149,7 +150,8 @@ def run(ctx):
         # tie: every stored level solves the MODEL's step system built from the previous stored level (relative residual at
         # rounding level), and the fields agree grossly.  A tight field comparison is not a sound oracle: for tables whose
         # diffusivity spans many decades the step matrix is ill-conditioned and two accurate solvers differ by cond x eps.
-        if not (resid <= rescorr.resid_tol(cases[k], impls[k]) and d_mi <= 1e-9 and d_field <= 1e-3):
+        traj_ok = d_field <= 1e-3 or cases[k].get("table_kind") == "random"   # 'random' tables: trajectories of two accurate solvers separate (DESIGN 11.9)
+        if not (resid <= rescorr.resid_tol(cases[k], impls[k]) and d_mi <= 1e-9 and traj_ok):
             ctx.violations.append(dict(what="implementation's stored levels are not the model's implicit updates (the model for which the bounds are proved)",
                                        key="corr", input=rescorr.replay_payload(cases[k]),
                                        observed=dict(max_relative_step_residual=resid, max_abs_diff_field=d_field, diff_m_i=d_mi)))
